@@ -134,8 +134,26 @@ def _cont(cid, k, subs, name=None, default=None, policy="subset", minreq=False):
 class C08(Property):
     id = "C08"
     title = "The element tree stays a tree: parent, children, root and path agree"
-    proof_module = "Proofs.C08"
-    theorems = []
+    proof_module = "Proofs.C08Step"
+    theorems = [
+        "Flatland.C08.Proofs.treeinv_of_wp",
+        "Flatland.C08.Proofs.stepAt_wp",
+        "Flatland.C08.Proofs.hstep_wp",
+        "Flatland.C08.Proofs.hrun_treeinv",
+        "Flatland.C08.Proofs.seqStep_wp",
+        "Flatland.C08.Proofs.good_seq",
+        "Flatland.C08.Proofs.c08_histories_partial",
+    ]
+    level_text = "proof (partial)"
+    level_note = ("treeinv_of_wp: the local stored-parent invariant implies the global parent-chain clause for every "
+                  "node; stepAt_wp/hrun_treeinv: frame rule — a call anywhere in the tree preserves the invariant of "
+                  "the whole tree if it does so for its target; seqStep_wp/c08_histories_partial: node-level "
+                  "preservation for every list-protocol call that reorders, removes, searches or places Element "
+                  "arguments, on any element of a tree of any depth. Calls that build new containers inside the call "
+                  "(plain values wrapped by container member schemas, set, set_default, the mapping calls) and the "
+                  "all_children / uniqueness-of-ids clauses rest on correspondence + the Python oracle; the full "
+                  "statement is kept as Flatland.C08.Spec.C08_Full (believed true, not proved)")
+    technique = "invariant + frame-rule proof (Lean 4) + differential testing with identity labels against the implementation"
     trusted_base = [
         "Python object identity and attribute stores modelled as nodes with unique ids and a stored parent id",
         "CPython list/dict semantics as in lean/Flatland/PyList.lean (shared with C09/C10)",
@@ -153,8 +171,8 @@ class C08(Property):
             "(sequence op or mapping op according to its kind), with plain values, fresh Elements and Elements "
             "detached by earlier calls; non-trivial = the tree has at least 4 elements at some point and at least 3 "
             "calls changed it")
-    quick_n = 2500
-    thorough_n = 100000
+    quick_n = 30000
+    thorough_n = 250000
 
     def __init__(self):
         self._cache = (None, None)
